@@ -252,6 +252,9 @@ impl PivotFinder {
         let row_counter = SyncCounter::new();
 
         remain_rows.par_iter().for_each(|&i| { 
+            #[cfg(feature = "verif-hooks")]
+            super::verif_hooks::call(super::verif_hooks::Point::TaskStart, i, 0);
+
             let mut loc_pivots = init_tls(&loc_pivots_tls, || 
                 pivots.read().unwrap().clone()
             ).borrow_mut();
@@ -264,6 +267,9 @@ impl PivotFinder {
             w.init(i, &self.str, &loc_pivots);
 
             self.find_cycle_free_pivots_in(&pivots, &mut loc_pivots, &mut w);
+
+            #[cfg(feature = "verif-hooks")]
+            super::verif_hooks::call(super::verif_hooks::Point::TaskEnd, i, 0);
 
             if report { 
                 let row_count = row_counter.incr();            
@@ -279,6 +285,9 @@ impl PivotFinder {
 
      #[cfg(feature = "multithread")]
      fn find_cycle_free_pivots_in(&self, pivots: &RwLock<PivotData>, loc_pivots: &mut PivotData, w: &mut RowWorker) {
+        #[cfg(feature = "verif-hooks")]
+        let mut attempt = 0usize;
+
         loop { 
             w.traverse(&self.str, loc_pivots);
     
@@ -289,14 +298,24 @@ impl PivotFinder {
             // If changes are made in other threads, update `loc_pivots` and retry.
             // Otherwise, modify `pivots` and exit.
         
+            #[cfg(feature = "verif-hooks")]
+            super::verif_hooks::call(super::verif_hooks::Point::BeforeLock, w.row, attempt);
+
             let mut pivots = pivots.write().unwrap();
             w.update_diff(&loc_pivots, &pivots);
             
             if w.should_retry() { 
                 loc_pivots.update_from(&pivots);
+                #[cfg(feature = "verif-hooks")]
+                {
+                    super::verif_hooks::call(super::verif_hooks::Point::Retry, w.row, attempt);
+                    attempt += 1;
+                }
                 continue
             } else { 
                 pivots.set(w.row, j);
+                #[cfg(feature = "verif-hooks")]
+                super::verif_hooks::call(super::verif_hooks::Point::AfterCommit, w.row, j);
                 break
             }    
         }
